@@ -42,6 +42,8 @@ StagesWide == StagesNarrow \cup {
   St("filter", "lt2_check"), St("filter", "lt2_spec"), St("filter", "item0_T"),
   St("takewhile", "item0_T"), St("takewhile", "lt2_tup"), St("dropwhile", "item0_T"), St("dropwhile", "odd_spec"),
   St("unique", "item0_spec"), St("unique", "mod2_tup"), Stage("split", "fn", 0, -1, 0, VStr("odd")),
+  \* keys that read the scope of the running call
+  St("map", "inc_S"), St("filter", "lt2_S"), St("takewhile", "lt2_S"), St("dropwhile", "lt2_S"), St("unique", "mod2_S"),
   St("map", "dup"), St("map", "T"), St("map", "stop_at2"), St("filter", "odd"), St("filter", "lt2"),
   Slice("slice", 1, 4, 1), Slice("slice", 1, -1, 2), Slice("slice", 2, 3, 1), Slice("slice", 2, 1, 1), Slice("limit", 0, 0, 1), Slice("slice1", 0, 3, 1),
   St("takewhile", "T"), St("dropwhile", "T"), St("dropwhile", "odd"),
@@ -52,7 +54,8 @@ Stages == IF Wide THEN StagesWide ELSE StagesNarrow
 BasesNarrow == { BaseStage("T", STOP, FALSE), BaseStage("skip_odd", STOP, FALSE), BaseStage("T", VInt(0), TRUE) }
 BasesWide == BasesNarrow \cup { BaseStage("inc", VInt(3), TRUE), BaseStage("stop_at2", STOP, FALSE),
                                 BaseStage("T", N0, TRUE), BaseStage("dup", STOP, FALSE),
-                                BaseStage("stop_at2", VInt(0), TRUE), BaseStage("item0_T", STOP, FALSE) }
+                                BaseStage("stop_at2", VInt(0), TRUE), BaseStage("item0_T", STOP, FALSE),
+                                BaseStage("inc_S", STOP, FALSE) }
 Bases == IF Wide THEN BasesWide ELSE BasesNarrow
 
 Fin(items) == [kind |-> "fin", items |-> items]
@@ -66,6 +69,7 @@ SourcesNarrow == {
   Fin(<<>>) }
 SourcesWide == SourcesNarrow \cup {
   Fin(<<I(3)>>),
+  Fin(<<I(1), VAny, I(0), VNull, I(2), N0, VAny>>),          \* items with hostile == / !=
   Fin(<<VList(<<I(1), I(2)>>), VList(<<I(0)>>), VList(<<I(0), I(3)>>), VTuple(<<I(1)>>), VList(<<I(2), I(2)>>)>>),
   Fin(<<I(1), I(1), I(3), I(2), I(4), I(5), I(7), I(6), I(0)>>),
   [kind |-> "cyc", items |-> <<VList(<<I(1)>>), VList(<<I(0), I(2)>>)>>] }
